@@ -5,14 +5,18 @@ from .wrap import CanCustomize
 
 class BoundCallable(CanCustomize, object):
     def __init__(self, executor, fn):
-        self.__executor = executor
-        self.__fn = fn
-
         try:
             update_wrapper(self, fn)
         except AttributeError:
             # Update wrapper if we can, but not fatal if we can't
             pass
+
+        # Set after update_wrapper: it copies fn.__dict__ onto self, and if fn is
+        # itself a BoundCallable that would replace our executor and function by
+        # fn's own (and carry over fn's name).
+        self.__executor = executor
+        self.__fn = fn
+        self.__dict__.pop("_name", None)
 
         # Carry the executor's name, so that executors created by chaining
         # with_* calls onto this callable inherit it (as they do when chaining
